@@ -35,7 +35,7 @@ FAMILIES = {
                                    "store and the dirty mark) while saves go on, store may fail")],
             "thorough": [mc("MCData", "2 vBuckets, 2 savers, <=2 saves, 1 ack, 1 crash, store may fail", 5000),
                          mc("MCData2", "2 vBuckets, 1 saver, <=2 saves, <=2 acks, 1 crash, store may fail", 5000),
-                         mc("MCAck", "2 vBuckets, 2 savers, <=2 saves, <=2 acks each of which may be held inside the consumer's TrackOffset, "
+                         mc("MCAck", "2 vBuckets, 2 savers, <=2 saves, 1 ack that may be held inside the consumer's TrackOffset, "
                                      "store may fail", 5000)],
         },
         "simulate": {"quick": [sim("SimData", 150, 40), sim("SimAck", 40, 40, salt=3)], "thorough": [sim("SimData", 2500, 48), sim("SimAck", 800, 48, salt=3)]},
